@@ -192,10 +192,18 @@ def arc_length_3point(p_start: NPPointType, p_btw: NPPointType, p_end: NPPointTy
     radius = rad_end
 
     # Determine the angle
-    angle = np.arccos((rad_start.dot(rad_end)) / (mag1 * mag3))
+    angle = np.arccos(np.clip((rad_start.dot(rad_end)) / (mag1 * mag3), -1, 1))
 
-    # Check if the vectors define an exterior or an interior arcEdge
-    if np.dot(np.cross(rad_start, rad_btw), np.cross(rad_start, rad_end)) < 0:
+    # Check if the vectors define an exterior or an interior arcEdge:
+    # measure both the middle and the end point in the sense of rotation start -> end;
+    # the arc is the short one only if it meets the middle point before the end point
+    normal = np.cross(rad_start, rad_end)
+    if norm(normal) < 1e-12 * mag1 * mag3:
+        # half circle: both arcs are equally long
+        normal = np.cross(rad_start, rad_btw)
+
+    angle_btw = np.arctan2(np.dot(np.cross(rad_start, rad_btw), unit_vector(normal)), np.dot(rad_start, rad_btw))
+    if angle_btw < 0 or angle_btw > angle:
         angle = 2 * np.pi - angle
 
     return angle * norm(radius)
